@@ -170,6 +170,14 @@ def judge(ctx, cases):
                     else:
                         spec_ops.append({"op": "rev.spec.steps", **h, "n": -n, "from": sym, "to": impl["targets"][0]})
                     spec_meta.append(("steps", inp, impl, n))
+            # a branch-qualified relative form never leaves the named branch
+            if mm and mm.group(1) and "targets" in impl:
+                for t in impl["targets"]:
+                    spec_ops.append({"op": "rev.spec.inbranch", **h, "label": mm.group(1), "rev": t})
+                    spec_meta.append(("inbranch", inp, impl, t))
+            if mm and mm.group(1) and mm.group(2) and impl.get("target"):
+                spec_ops.append({"op": "rev.spec.inbranch", **h, "label": mm.group(1), "rev": impl["target"]})
+                spec_meta.append(("inbranch", inp, impl, impl["target"]))
             if mm and mm.group(2) and "target" in impl and not c["up"]:
                 n = int(mm.group(3))
                 sym = mm.group(2)
@@ -192,6 +200,9 @@ def judge(ctx, cases):
         elif kind == "ref":
             if "targets" in a and sorted(x for x in impl["revs"] if x) != sorted(a["targets"]):
                 ctx.fail(inp, "symbolic: %r resolves to %s, documented meaning is %s" % (inp["ident"], impl["revs"], a["targets"]), impl=impl, tags=["symbolic"])
+        elif kind == "inbranch":
+            if a.get("holds") is False:
+                ctx.fail(inp, "outside-branch: %r resolves to %s which is not on the named branch" % (inp["target"], extra), impl=impl, tags=["branch"])
         elif kind == "steps":
             if a.get("holds") is not True:
                 ctx.fail(inp, "distance: %r resolves to %s which is not exactly %d down_revision steps away" % (inp["target"], impl, extra), impl=impl, tags=["distance"])
